@@ -1,4 +1,7 @@
 pub mod c01;
+pub mod c05;
+pub mod c07;
+pub mod c11;
 pub mod c18;
 pub mod c19;
 pub mod c20;
